@@ -405,6 +405,57 @@ func c02(args []string) int {
 		// placeholders keep their trampolines: restore them for the next history by re-reading the pristine image is not possible
 		// through goom, so the next history starts from the observed placeholder state (the model is told via "ph0")
 	}
+	// ---- scripted histories around a re-mock that goom refuses INSIDE replaceFunc (an origin placeholder for a target whose
+	// prologue cannot be relocated): after every Reset the entry must be pristine and the function original, and a refused
+	// instruction may leave the entry only pristine or as the complete jump of the mock that was live before it
+	{
+		entry := reflect.ValueOf(fnzoo.SumTo).Pointer()
+		off := int(entry - lo)
+		state := func() (string, bool) {
+			cur := text[off : off+32]
+			switch {
+			case bytes.Equal(cur, pristine[off:off+32]):
+				return "pristine", outcome(func() int { return fnzoo.SumTo(4) }) == interface{}(6)
+			case cur[0] == 0x90 && cur[1] == 0x48 && cur[2] == 0xBA && cur[11] == 0xFF && cur[12] == 0x22 && bytes.Equal(cur[13:], pristine[off+13:off+32]):
+				return "jump", false
+			}
+			return "torn", false
+		}
+		for sc := 0; sc < 3; sc++ {
+			b := mocker.Create()
+			var steps []map[string]interface{}
+			do := func(name string, f func()) {
+				pan := ""
+				func() {
+					defer func() {
+						if e := recover(); e != nil {
+							pan = trunc(fmt.Sprint(e), 100)
+						}
+					}()
+					f()
+				}()
+				st, orig := state()
+				steps = append(steps, map[string]interface{}{"step": name, "entry": st, "original": orig, "panic": pan})
+			}
+			ph := fnzoo.PH1
+			switch sc {
+			case 0: // the earlier mock was reset before the refused re-mock
+				do("apply", func() { b.Func(fnzoo.SumTo).Apply(func(int) int { return 7 }) })
+				do("reset", func() { b.Reset() })
+				do("refused", func() { b.Func(fnzoo.SumTo).Origin(&ph).Apply(func(n int) int { return ph(n) + 100 }) })
+			case 1: // the earlier mock is still live
+				do("apply", func() { b.Func(fnzoo.SumTo).Apply(func(int) int { return 7 }) })
+				do("refused", func() { b.Func(fnzoo.SumTo).Origin(&ph).Apply(func(n int) int { return ph(n) + 100 }) })
+			default: // a stub, cancelled, then the refused re-mock
+				do("apply", func() { b.Func(fnzoo.SumTo).Return(9) })
+				do("reset", func() { b.Func(fnzoo.SumTo).Cancel() })
+				do("refused", func() { b.Func(fnzoo.SumTo).Origin(&ph).Apply(func(n int) int { return ph(n) + 100 }) })
+			}
+			do("reset", func() { b.Reset() })
+			do("reset", func() { b.Reset() })
+			out.Put(map[string]interface{}{"kind": "scripted", "scenario": sc, "steps": steps})
+		}
+	}
 	_ = unsafe.Pointer(nil)
 	return 0
 }
